@@ -3,7 +3,7 @@ from __future__ import annotations
 
 import datetime as dt
 
-from spverif.core.util import attempt, exc_sig
+from spverif.core.util import attempt, exc_sig, hist_len
 from spverif.ref import cds as R
 
 SCRIBBLE = True
@@ -159,7 +159,7 @@ def k_stamp_history(ctx, seed):
     d, m = r.choice((0, 4382, 4383, r.getrandbits(16), r.randrange(60000))), r.choice((0, 1, MS - 1, r.randrange(MS)))
     t = T(d, m) if r.random() < 0.5 else T.unpack(R.encode(d, m))
     trail = []
-    for step in range(r.randrange(2, 9)):
+    for step in range(hist_len(r, 2, 9)):
         op = r.choice(("pack", "read_from_raw", "add", "views", "pack"))
         trail.append(op)
         if op == "read_from_raw":
